@@ -52,6 +52,8 @@ def assoc_subscripts(fn):
 
 
 def check(run):
+    from . import C08 as _C08
+    _C08.check_tables_append(run, "R18.6")      # merged blocks keep their tables entry for entry
     facts = run.facts
     mg = tool_main(facts, "cdns_merge.cpp", "R18.1")
     env = Env(mg["body"])
